@@ -98,7 +98,7 @@ def _get_input_shape(tp, attrs_fields, type_hints) -> InputShape:
         overriden_types = frozenset(
             attrs_fld.name
             for attrs_fld in attrs_fields
-            if not attrs_fld.inherited and attrs_fld.init
+            if _is_own_field(tp, attrs_fld) and attrs_fld.init
         )
 
     return InputShape(
@@ -121,7 +121,12 @@ def _get_input_shape(tp, attrs_fields, type_hints) -> InputShape:
     )
 
 
-def _get_output_shape(attrs_fields, type_hints) -> OutputShape:
+def _is_own_field(tp, attrs_fld) -> bool:
+    # `inherited` is relative to the class processed by attrs, undecorated child inherits the whole `__attrs_attrs__`
+    return not attrs_fld.inherited and "__attrs_attrs__" in vars(tp)
+
+
+def _get_output_shape(tp, attrs_fields, type_hints) -> OutputShape:
     output_fields = tuple(
         OutputField(
             id=attrs_fld.name,
@@ -136,7 +141,7 @@ def _get_output_shape(attrs_fields, type_hints) -> OutputShape:
     return OutputShape(
         fields=output_fields,
         overriden_types=frozenset(
-            attrs_fld.name for attrs_fld in attrs_fields if not attrs_fld.inherited
+            attrs_fld.name for attrs_fld in attrs_fields if _is_own_field(tp, attrs_fld)
         ),
     )
 
@@ -162,5 +167,5 @@ def get_attrs_shape(tp) -> FullShape:
     type_hints = get_all_type_hints(tp)
     return Shape(
         input=_get_input_shape(tp, attrs_fields, type_hints),
-        output=_get_output_shape(attrs_fields, type_hints),
+        output=_get_output_shape(tp, attrs_fields, type_hints),
     )
